@@ -300,10 +300,15 @@ def witness(ctx, name, spec, cfg, expect, build, workers=1):
         ctx.inconclusive("could not convert the counterexample of %s" % cfg)
         return None
     try:
-        os.makedirs(os.path.dirname(path), exist_ok=True)
-        json.dump({"sha": sha, "cfg": cfg, "violated": r.violated, "scenario": sc}, open(path, "w"), indent=0)
-    except OSError:
-        pass
+        stored = json.load(open(path)).get("sha") if os.path.exists(path) else None
+    except Exception:
+        stored = None
+    if stored != sha:      # (TLC's multi-worker search may return another, equally valid schedule: keep the stored file stable)
+        try:
+            os.makedirs(os.path.dirname(path), exist_ok=True)
+            json.dump({"sha": sha, "cfg": cfg, "violated": r.violated, "scenario": sc}, open(path, "w"), indent=0)
+        except OSError:
+            pass
     return sc
 
 
